@@ -58,6 +58,32 @@ CLAIMED["C03"] = dict(
     technique="Lean 4 proof by symbolic execution of translated x86-64 code + translator self-check + model/CPU differential + runtime probe",
     design="DESIGN.md section 4, C03")
 
+CLAIMED["C09"] = dict(
+    text="Lean 4 invariant proof over an LTS of the full/empty lock layered on the abstract mutex/cond interface of C04/C05, any number of threads acting as producers and consumers any number of times with plain lock/unlock mixed in, all interleavings: wait_and_lock(s) returns only with status = s and the lock held exclusively; mark_and_signal(v) publishes v and hands one waiter for v back to the lock; single-slot mailbox exactly-once (produced = slot ++ consumed in every reachable state, hence consumed items distinct); no lost signal (status = w and sleepers for w imply somebody active for w); a quiescent reachable state has no sleeper waiting for the current status (nobody sleeps forever in a balanced exchange). Tie: mailbox programs under the schedule controller; the SAME traces are accepted by the felock model, the cond model and the mutex model; consumed-multiset / exclusivity / deadlock oracle on the implementation.",
+    note="Trusted: Lean kernel; layering on C04/C05 (abstract atomic acquire/release and wait = release+enqueue; every felock signal is issued under the mutex); schedule controller (SC interleavings); put/take come from program notes. 'Sleeps forever' = stuck-freedom under scheduler fairness.",
+    technique="Lean 4 inductive-invariant proof over a layered LTS + trace-acceptance correspondence under controlled schedules",
+    design="DESIGN.md section 4, C09")
+CLAIMED["C15"] = dict(
+    text="27 Lean 4 theorems over all strings / capacities / interleavings / histories about models of myth_init_func.h, myth_bind_worker.c, myth_init.c and the victim arithmetic: empty / non-numeric / non-positive MYTH_NUM_WORKERS and MYTH_DEF_STKSIZE fall back to CPU count / default and the values used are > 0; the CPU-list parser terminates (well-founded recursion, no fuel), never aborts, writes <= cap entries, returns exactly the denoted CPUs for a | a-b | a-b:c lists and -1 for ill-formed ones; init-once protocol for unboundedly many concurrent callers (one initialisation per epoch, single elected initialiser, return only after completion, workers = range n, fini stops all workers, fini + init_ex(a) installs exactly a); ranks and steal victims in range. The pinned D5/D6 behaviours are refuted. Tie: differential runs of the real parsers (ASan/UBSan) vs drv_env, whole-library init/fini histories (1..64 workers via attribute and environment, ranks from every thread, fini from a migrated main thread, exit status under malformed environments), trace acceptor on controlled interleavings of concurrent initialisers, structural check of the election code.",
+    note="Trusted: Lean kernel; glibc atoi (strtol saturation then truncation) and wrapping int arithmetic are observed against the real code each run, not proved; CPU_ISSET/sysconf/affinity mask/rand_r are parameters; single finaliser at a time; attributes request >= 1 worker. Observed, not claimed as violations: fini leaves the caller bound to worker 0's CPU; an attribute-less re-init does not re-read the environment.",
+    technique="Lean 4 total functional models + well-founded recursion + LTS invariant; differential execution and trace acceptance",
+    design="DESIGN.md section 4, C15")
+CLAIMED["C20"] = dict(
+    text="23 Lean 4 theorems over an executable transcription of myth_timespec_add/gt, myth_nanosleep/usleep/sleep_body, myth_mutex_timedlock_body and myth_timedjoin_body, for all durations and deadlines, all clock streams and all trylock/tryjoin outcome streams (= all interleavings with the holder/target): timespec addition exact and normalised (saturating), strict order, EINVAL iff the POSIX malformed condition, a return of 0 only after a reading later than start+req (elapsed >= req on a monotone clock), a yield between any two clock reads, timeout only after a reading strictly later than the deadline, success iff one of the attempts succeeded, one attempt even for past deadlines, only 0/ETIMEDOUT returned. Two pinned defects refuted and repaired. Tie: line-by-line comparison of return values and event traces of the real library under a scripted virtual clock (1 and 2 workers), the property's own exact-integer oracle, real-clock sanity runs.",
+    note="Trusted: Lean kernel; hr_gettime is the only clock read and returns normalised readings; signed overflow of the pinned add modelled as wrap; what a yield does (another runnable thread runs) is observed, not proved. Deadlines with tv_nsec > 10^9 are outside the property.",
+    technique="Lean 4 proof (induction over fuel-bounded loops with exact loop characterisation) + virtual-clock differential execution / trace acceptance",
+    design="DESIGN.md section 4, C20")
+CLAIMED["C14"] = dict(
+    text="Lean 4 invariant proof over an LTS of myth_once_body (= pthread_once) at shared-access granularity, unbounded callers, all interleavings, init routine = arbitrary finite winner steps with arbitrary interleaving (yield/block/create): at most one start, exactly one once anyone returned (state and ghost-free trace form), every return preceded by the routine's end, completed is stable and later calls are two reads without CAS/yield/routine, nobody ever disabled, non-runners neither return nor interfere while in progress, waiters always have an enabled completer (stuck-freedom), init = 0. Tie: consts translator; whole-library once_prog (myth_once and ld-wrapped pthread_once) under the schedule controller, every trace accepted step by step; oracle = execution counter, done-flag seen right after return, deadlock verdict.",
+    note="Trusted: Lean kernel; controller + MYTH_VERIF points (SC interleavings; plain store of completed relies on TSO store order); routine steps/end come from program notes; yield label synthesised by the acceptor; 'everyone waits' = stuck-freedom under fairness for the winner; a late call reads the word twice, not once.",
+    technique="Lean 4 inductive-invariant proof over an LTS + trace-acceptance correspondence under controlled schedules",
+    design="DESIGN.md section 4, C14")
+CLAIMED["C08"] = dict(
+    text="Lean 4 invariant proof over an LTS of myth_uncond_wait/_cb/_signal side by side with an explicit protocol monitor WellUsed on label sequences (shown satisfiable and shown necessary), unbounded threads and rendezvous, arbitrary waiter/signaler identities: pushes are in order a prefix of announcements and per thread #resume <= #push <= #announce <= #resume+1, signal's k-th return follows its k-th push, runnable only via the claimer's push after the clear, u->th / carried / queued threads always context-saved, invariant re-established after every rendezvous, bounded-rank progress (early and late signal) = stuck-freedom. Tie: uncond_prog (SPSC one-word buffer with alternating roles, MPSC counter) under the controller with forced early signals; every trace accepted by library model and monitor; oracle = counters, in-order values, nobody left, deadlock verdict.",
+    note="Trusted: Lean kernel; controller (SC interleavings); announce/claim fused with call entry and reported by program notes; context save before callback from C03; run queues abstracted (C02); 'eventually' = rank-bounded progress under fairness.",
+    technique="Lean 4 inductive-invariant proof over an LTS + trace-acceptance correspondence under controlled schedules",
+    design="DESIGN.md section 4, C08")
+
 NA_REASON = "not yet claimed in this revision: model/theorems/correspondence for this property are still being built (see DESIGN.md section 8 build order); no other technique is substituted"
 
 
